@@ -199,6 +199,11 @@ func normaliseHelpers(repo string, overlay map[string][]byte, tags string) (map[
 		}
 		normalisePackage(p, dir, isNew, imps, out, note)
 	}
+	if d := os.Getenv("LNCVERIF_DUMPNORM"); d != "" {
+		for name, b := range out {
+			_ = os.WriteFile(filepath.Join(d, filepath.Base(name)), b, 0o644)
+		}
+	}
 	return out, note
 }
 
@@ -284,6 +289,7 @@ func normalisePackage(p *packages.Package, dir string, isNew map[string]bool, im
 			key    string
 			goDef  bool
 			stmt   ast.Stmt // innermost statement holding the call, when it sits directly in a statement list
+			outer  ast.Stmt // where statements can be put in front: stmt itself, or the `if` whose init stmt is
 		}
 		var pick *cand
 		for i, f := range st.files {
@@ -328,9 +334,17 @@ func normalisePackage(p *packages.Package, dir string, isNew map[string]bool, im
 					pick = &cand{file: i, call: call, callee: callee, key: key, goDef: gd}
 					for j := len(stack) - 2; j >= 1; j-- {
 						if s, ok := stack[j].(ast.Stmt); ok {
-							switch stack[j-1].(type) {
+							switch par := stack[j-1].(type) {
 							case *ast.BlockStmt, *ast.CaseClause, *ast.CommClause:
-								pick.stmt = s
+								pick.stmt, pick.outer = s, s
+							case *ast.IfStmt:
+								// `if err := h(); err != nil {` in a statement list (not an else-if)
+								if par.Init == s && j >= 2 {
+									switch stack[j-2].(type) {
+									case *ast.BlockStmt, *ast.CaseClause, *ast.CommClause:
+										pick.stmt, pick.outer = s, par
+									}
+								}
 							}
 							break
 						}
@@ -364,7 +378,7 @@ func normalisePackage(p *packages.Package, dir string, isNew map[string]bool, im
 			// for one. When the statement holds no other call, receive or function literal, reading the
 			// argument just before the statement yields the same value: hoist it and try again.
 			hoisted[pick.key] = true
-			if b, ok := hoistArgs(st, pick.stmt, pick.call, src[callerName], iter); ok {
+			if b, ok := hoistArgs(st, pick.stmt, pick.outer, pick.call, src[callerName], iter); ok {
 				oldSrc := src[callerName]
 				src[callerName] = b
 				if _, err := checkPackage(p, imps, src); err == nil {
@@ -374,9 +388,26 @@ func normalisePackage(p *packages.Package, dir string, isNew map[string]bool, im
 			}
 		}
 		if res.Literalized && !pick.goDef {
-			failed[pick.key] = true
-			note.Kept = append(note.Kept, pick.key+": only expressible as a function literal")
-			continue
+			// a helper with several statements or early returns in a value context: splice its body
+			// in as a labelled block that assigns the results (blockInline)
+			if b, why := blockInline(st, dir, pick.stmt, pick.outer, pick.call, fd, src[callerName], src[calleeName], iter); b != nil {
+				oldSrc := src[callerName]
+				src[callerName] = b
+				if _, err := checkPackage(p, imps, src); err == nil {
+					note.Inlined = append(note.Inlined, pick.key+" (as a block)")
+					continue
+				} else {
+					why = "block form does not type-check: " + firstLine(err.Error())
+				}
+				src[callerName] = oldSrc
+				failed[pick.key] = true
+				note.Kept = append(note.Kept, pick.key+": "+why)
+				continue
+			} else {
+				failed[pick.key] = true
+				note.Kept = append(note.Kept, pick.key+": only expressible as a function literal ("+why+")")
+				continue
+			}
 		}
 		old := src[callerName]
 		src[callerName] = res.Content
@@ -435,7 +466,7 @@ func genKnownFuncs(repo string) {
 // hoistArgs rewrites `S` (an assignment, expression statement or return that contains exactly one
 // call, the helper call, and no receive or function literal) so that every argument that is neither
 // an identifier nor a literal nor a constant is read into a fresh local just before S.
-func hoistArgs(st *pkgState, stmt ast.Stmt, call *ast.CallExpr, content []byte, iter int) ([]byte, bool) {
+func hoistArgs(st *pkgState, stmt, outer ast.Stmt, call *ast.CallExpr, content []byte, iter int) ([]byte, bool) {
 	if stmt == nil {
 		return nil, false
 	}
@@ -496,7 +527,7 @@ func hoistArgs(st *pkgState, stmt ast.Stmt, call *ast.CallExpr, content []byte, 
 	if len(edits) == 0 {
 		return nil, false
 	}
-	edits = append(edits, edit{tf.Offset(stmt.Pos()), tf.Offset(stmt.Pos()), strings.Join(binds, "")})
+	edits = append(edits, edit{tf.Offset(outer.Pos()), tf.Offset(outer.Pos()), strings.Join(binds, "")})
 	sort.Slice(edits, func(i, j int) bool { return edits[i].from > edits[j].from })
 	out := append([]byte(nil), content...)
 	for _, e := range edits {
@@ -552,4 +583,269 @@ func removeDeadHelpers(p *packages.Package, dir string, isNew map[string]bool, i
 			return
 		}
 	}
+}
+
+// blockInline: the call `h(args)` sits in the statement S (an assignment, an expression statement or
+// a return, directly in a statement list) either as the whole right-hand side / returned value / the
+// statement itself, or as a direct argument of the single other call of S. The statement is replaced
+// by
+//
+//	lncvA_i := arg_i                      (arguments and receiver, read once, in order)
+//	var lncvR_j T_j                       (one variable per result)
+//	lncvL: switch { default:
+//	    var p_i P_i = lncvA_i             (the helper's own parameter names and types)
+//	    <body of h, every `return e...` rewritten to `{ lncvR... = e...; break lncvL }`>
+//	}
+//	S with the call replaced by lncvR_0[, lncvR_1 ...]
+//
+// Restrictions (anything else is refused and the call stays as written): no defer, recover, goto or
+// label in h, no named results, not variadic, no method value tricks; every package-level name the
+// body uses means the same thing at the call site; in S no call other than the one whose argument h
+// is. Go leaves the order between a function call and the reads of the other operands of a statement
+// unspecified, so running h's body just before the rest of S is one of the permitted orders.
+func blockInline(st *pkgState, dir string, stmt, outer ast.Stmt, call *ast.CallExpr, fd *ast.FuncDecl, callerSrc, calleeSrc []byte, iter int) ([]byte, string) {
+	if stmt == nil {
+		return nil, "the call is not inside a plain statement list"
+	}
+	switch stmt.(type) {
+	case *ast.AssignStmt, *ast.ExprStmt, *ast.ReturnStmt:
+	default:
+		return nil, "unsupported statement kind"
+	}
+	if call.Ellipsis.IsValid() || (fd.Type.Params != nil && len(fd.Type.Params.List) > 0 && func() bool {
+		_, v := fd.Type.Params.List[len(fd.Type.Params.List)-1].Type.(*ast.Ellipsis)
+		return v
+	}()) {
+		return nil, "variadic"
+	}
+	// the callee
+	bad := ""
+	var returns []*ast.ReturnStmt
+	var visit func(n ast.Node, inLit bool)
+	visit = func(n ast.Node, inLit bool) {
+		ast.Inspect(n, func(x ast.Node) bool {
+			switch y := x.(type) {
+			case *ast.FuncLit:
+				if y != n {
+					visit(y.Body, true)
+					return false
+				}
+			case *ast.DeferStmt:
+				if !inLit {
+					bad = "defer"
+				}
+			case *ast.LabeledStmt:
+				bad = "label"
+			case *ast.BranchStmt:
+				if y.Tok == token.GOTO {
+					bad = "goto"
+				}
+			case *ast.ReturnStmt:
+				if !inLit {
+					returns = append(returns, y)
+				}
+			case *ast.CallExpr:
+				if id, ok := y.Fun.(*ast.Ident); ok && id.Name == "recover" {
+					bad = "recover"
+				}
+			}
+			return true
+		})
+	}
+	visit(fd.Body, false)
+	if bad != "" {
+		return nil, "the helper uses " + bad
+	}
+	var resTypes []string
+	ctf := st.fset.File(fd.Pos())
+	ctext := func(n ast.Node) string { return string(calleeSrc[ctf.Offset(n.Pos()):ctf.Offset(n.End())]) }
+	if fd.Type.Results != nil {
+		for _, f := range fd.Type.Results.List {
+			if len(f.Names) > 0 {
+				return nil, "named results"
+			}
+			resTypes = append(resTypes, ctext(f.Type))
+		}
+	}
+	// names the body takes from the package or the universe must mean the same at the call site
+	callScope := st.pkg.Scope().Innermost(call.Pos())
+	if callScope == nil {
+		return nil, "no scope"
+	}
+	shadow := ""
+	ast.Inspect(fd, func(x ast.Node) bool {
+		id, ok := x.(*ast.Ident)
+		if !ok {
+			return true
+		}
+		obj := st.info.Uses[id]
+		if obj == nil {
+			return true
+		}
+		pkgLevel := obj.Parent() == st.pkg.Scope() || obj.Parent() == types.Universe
+		_, isPkgName := obj.(*types.PkgName)
+		if !pkgLevel && !isPkgName {
+			return true
+		}
+		_, at := callScope.LookupParent(id.Name, call.Pos())
+		if at == nil {
+			shadow = id.Name
+			return true
+		}
+		if isPkgName {
+			pn, ok := at.(*types.PkgName)
+			if !ok || pn.Imported() != obj.(*types.PkgName).Imported() {
+				shadow = id.Name
+			}
+		} else if at != obj {
+			shadow = id.Name
+		}
+		return true
+	})
+	if shadow != "" {
+		return nil, "the name " + shadow + " means something else at the call site"
+	}
+	// the caller statement: the helper call is S's value, or a direct argument of the only other call
+	var others []*ast.CallExpr
+	badS := false
+	ast.Inspect(stmt, func(x ast.Node) bool {
+		switch y := x.(type) {
+		case *ast.FuncLit:
+			badS = true
+		case *ast.UnaryExpr:
+			if y.Op == token.ARROW {
+				badS = true
+			}
+		case *ast.CallExpr:
+			if y == call {
+				return true
+			}
+			if tv, ok := st.info.Types[y.Fun]; ok && (tv.IsType() || tv.IsBuiltin()) {
+				return true
+			}
+			others = append(others, y)
+		}
+		return true
+	})
+	if badS || len(others) > 1 {
+		return nil, "the statement holds other calls, receives or function literals"
+	}
+	if len(others) == 1 {
+		direct := false
+		for _, a := range others[0].Args {
+			if a == ast.Expr(call) {
+				direct = true
+			}
+		}
+		if !direct || len(resTypes) != 1 {
+			return nil, "the call is not a direct argument of the statement's call"
+		}
+	}
+	tf := st.fset.File(stmt.Pos())
+	text := func(n ast.Node) string { return string(callerSrc[tf.Offset(n.Pos()):tf.Offset(n.End())]) }
+	var pre, bind strings.Builder
+	tag := fmt.Sprintf("%d", iter)
+	// receiver
+	if fd.Recv != nil && len(fd.Recv.List) == 1 {
+		sel, ok := call.Fun.(*ast.SelectorExpr)
+		if !ok {
+			return nil, "method called through something else than a selector"
+		}
+		if s := st.info.Selections[sel]; s == nil || len(s.Index()) != 1 {
+			return nil, "receiver reached through an embedded field"
+		}
+		rt := st.info.Types[sel.X].Type
+		_, recvIsPtr := fd.Recv.List[0].Type.(*ast.StarExpr)
+		_, argIsPtr := rt.Underlying().(*types.Pointer)
+		rx := text(sel.X)
+		if recvIsPtr && !argIsPtr {
+			rx = "&" + rx
+		} else if !recvIsPtr && argIsPtr {
+			rx = "*" + rx
+		}
+		fmt.Fprintf(&pre, "lncvRecv%s := %s\n", tag, rx)
+		if len(fd.Recv.List[0].Names) == 1 && fd.Recv.List[0].Names[0].Name != "_" {
+			n := fd.Recv.List[0].Names[0].Name
+			fmt.Fprintf(&bind, "var %s %s = lncvRecv%s\n_ = %s\n", n, ctext(fd.Recv.List[0].Type), tag, n)
+		}
+	}
+	ai := 0
+	if fd.Type.Params != nil {
+		for _, f := range fd.Type.Params.List {
+			names := f.Names
+			if len(names) == 0 {
+				names = []*ast.Ident{ast.NewIdent("_")}
+			}
+			for _, nm := range names {
+				if ai >= len(call.Args) {
+					return nil, "argument count"
+				}
+				a := call.Args[ai]
+				src := ""
+				if tv := st.info.Types[a]; tv.Value != nil || tv.IsNil() {
+					src = text(a)
+				} else {
+					src = fmt.Sprintf("lncvArg%s_%d", tag, ai)
+					fmt.Fprintf(&pre, "%s := %s\n", src, text(a))
+				}
+				if nm.Name == "_" {
+					fmt.Fprintf(&bind, "_ = %s\n", src)
+				} else {
+					fmt.Fprintf(&bind, "var %s %s = %s\n_ = %s\n", nm.Name, ctext(f.Type), src, nm.Name)
+				}
+				ai++
+			}
+		}
+	}
+	if ai != len(call.Args) {
+		return nil, "argument count"
+	}
+	var resVars []string
+	for j, t := range resTypes {
+		v := fmt.Sprintf("lncvRes%s_%d", tag, j)
+		resVars = append(resVars, v)
+		fmt.Fprintf(&pre, "var %s %s\n", v, t)
+	}
+	label := "lncvL" + tag
+	// the body with its returns rewritten
+	bodyFrom, bodyTo := ctf.Offset(fd.Body.Lbrace)+1, ctf.Offset(fd.Body.Rbrace)
+	body := append([]byte(nil), calleeSrc[bodyFrom:bodyTo]...)
+	sort.Slice(returns, func(i, j int) bool { return returns[i].Pos() > returns[j].Pos() })
+	for _, r := range returns {
+		from, to := ctf.Offset(r.Pos())-bodyFrom, ctf.Offset(r.End())-bodyFrom
+		repl := "{ break " + label + " }"
+		if len(r.Results) > 0 {
+			var rs []string
+			for _, e := range r.Results {
+				rs = append(rs, ctext(e))
+			}
+			repl = "{ " + strings.Join(resVars, ", ") + " = " + strings.Join(rs, ", ") + "; break " + label + " }"
+		}
+		body = append(body[:from], append([]byte(repl), body[to:]...)...)
+	}
+	// S with the call replaced
+	sFrom, sTo := tf.Offset(stmt.Pos()), tf.Offset(stmt.End())
+	cFrom, cTo := tf.Offset(call.Pos()), tf.Offset(call.End())
+	after := string(callerSrc[sFrom:cFrom]) + strings.Join(resVars, ", ") + string(callerSrc[cTo:sTo])
+	if es, ok := stmt.(*ast.ExprStmt); ok && es.X == ast.Expr(call) {
+		after = ""
+		for _, v := range resVars {
+			after += "_ = " + v + "\n"
+		}
+	}
+	oFrom := tf.Offset(outer.Pos())
+	if outer != stmt && after == "" {
+		return nil, "a call without results as the init statement of an if"
+	}
+	var out strings.Builder
+	out.Write(callerSrc[:oFrom])
+	out.WriteString(pre.String())
+	out.WriteString(label + ":\nswitch {\ndefault:\n")
+	out.WriteString(bind.String())
+	out.Write(body)
+	out.WriteString("\nbreak " + label + "\n}\n")
+	out.Write(callerSrc[oFrom:sFrom])
+	out.WriteString(strings.TrimRight(after, "\n"))
+	out.Write(callerSrc[sTo:])
+	return []byte(out.String()), ""
 }
